@@ -182,7 +182,7 @@ pub fn run(s: &Session) {
     let max_len = s.pick(64usize, 256usize);
     s.forall(
         "random-long",
-        s.pick(4_000_000, 16_000_000),
+        s.pick(6_000_000, 12_000_000),
         || long_case(max_len),
         |c: &LongCase, obs: &mut Obs| {
             let (b, pos) = build_b(c);
